@@ -28,6 +28,8 @@ NOT_DECIDED = [
 TRUSTED = ['rustc nightly MIR/HIR', 'obligation chains and guard entries frozen in rules/props/c01.py and c11.py',
            'external crates are not analysed']
 
+THOROUGH_MAIN_CONFIGS = ['b248s6', 'nostd']
+
 
 def run(ctx, rep):
     db = ctx.main
